@@ -3,7 +3,7 @@ from ..core import AnalysisError, term_s, subterms
 from . import srv, conn
 from .conn import leaves, ret_kind
 from .srv import S, CC, calls
-from .util import const_of, is_call, last_seg, look, norm, truth, option_is_some
+from .util import payload_of, const_of, is_call, last_seg, look, norm, truth, option_is_some
 
 EXPLANATION = (
     "Static decision of the kill-switch mechanism: the event array given to epoll.wait has "
@@ -61,33 +61,42 @@ def batch(ctx):
         for e in calls(lf, "vmm_sys_util::epoll::Epoll::wait"):
             buf = look(e[4][2][2])
             ok = const_of(e[4][2][1]) == -1 or True
-            whole = is_call(buf, "index_mut") and look(buf[2][1])[0] == "agg" and "RangeFull" in look(buf[2][1])[1] and look(buf[2][0])[0] == "repeat"
+            while buf[0] == "mut":
+                buf = look(buf[1])
+            whole = buf[0] == "repeat" or (is_call(buf, "index_mut") and look(buf[2][1])[0] == "agg" and "RangeFull" in look(buf[2][1])[1] and look(buf[2][0])[0] == "repeat")
     ctx.ob("R18.1", "wait-gets-whole-array", whole, "epoll.wait receives the whole array (events[..])", fn.loc(0))
 
 
 def branch(ctx):
     facts = ctx.facts
-    fn, lv = leaves(ctx, srv.REQUESTS)
+    fn, lv = leaves(ctx, srv.REQUESTS, lower=True)
     n_iter = n_kill = 0
     for lf in lv:
         ev = srv.event_term(lf)
         if ev is None:
             continue
         n_iter += 1
-        # first condition after the iterator's Some must be Eq(e.fd(), kill_fd)
+        # the first condition on this event (after the iterator's Some) must be e.fd() == kill fd
         idx = [i for i, (t, c, _b) in enumerate(lf.conds) if t[0] == "discr" and is_call(look(t[1]), "next") and norm(look(t[1])) == norm(ev)]
-        first = lf.conds[idx[0] + 1] if idx and idx[0] + 1 < len(lf.conds) else None
+        first = None
+        if idx:
+            for (t, c, b) in lf.conds[idx[0] + 1:]:
+                if any(isinstance(x, tuple) and x and norm(x) == norm(ev) for x in subterms(t)):
+                    first = (t, c, b)
+                    break
         ok = False
         tv = None
         if first is not None:
             t, c, b = first
-            if t[0] == "bin" and t[1] == "Eq":
+            if t[0] == "bin" and t[1] in ("Eq", "Ne"):
                 a, k = look(t[2]), look(t[3])
                 if not srv.is_event_field(a, ev, "fd"):
                     a, k = k, a
-                ok = srv.is_event_field(a, ev, "fd") and is_kill_fd(k)
+                ok = srv.is_event_field(a, ev, "fd") and is_kill_fd(k, lf)
                 tv = truth(c)
-        ctx.ob("R18.2", "first-test-is-kill-fd", ok, "the first thing done with an event is e.fd() == kill_fd (kill_fd = kill_switch.as_ref().map_or(-1, as_raw_fd))", fn.loc(first[2] if first else lf.bb))
+                if t[1] == "Ne" and tv is not None:
+                    tv = not tv
+        ctx.ob("R18.2", "first-test-is-kill-fd", ok, "the first thing done with an event is comparing e.fd() with the kill switch's descriptor (-1 when there is none)", fn.loc(first[2] if first else lf.bb))
         if ok and tv:
             n_kill += 1
             rk = ret_kind(lf)
@@ -97,27 +106,41 @@ def branch(ctx):
             after = []
             seen = False
             for evn in lf.events:
-                if evn[1] == cmp_bb:
+                if evn[0] == "cond" and evn[1] == cmp_bb and evn[3] == first[0]:
                     seen = True
                     continue
                 if seen and evn[0] == "call" and not evn[3].startswith("std::ops::"):
                     after.append(evn[3])
             ctx.ob("R18.2", "kill|returns-shutdown-at-once", e is not None and e[0] == "agg" and e[2] == "ShutdownEvent" and not after, "kill event: Err(ShutdownEvent) with no call in between (calls after: %s)" % after, fn.loc(lf.bb))
-        if ok and tv is False:
-            # every other use of the event is after this test: guaranteed by 'first'
-            pass
     ctx.ob("R18.2", "floor", n_iter >= 10 and n_kill >= 1, "%d loop-iteration paths, %d kill path(s) (floors 10, 1)" % (n_iter, n_kill), fn.loc(0))
 
 
-def is_kill_fd(t):
+def _kill_switch_field(t):
     t = look(t)
-    if not is_call(t, "map_or"):
+    return t[0] == "field" and t[3] == "kill_switch" and t[2] == srv.SRV
+
+
+def is_kill_fd(t, lf=None):
+    """The descriptor the event's fd is compared with: kill_switch.as_ref().map_or(-1, as_raw_fd), or -- with the
+    Option taken apart by match / if let / a helper -- as_raw_fd(the Some payload) on a Some path, -1 on a None path."""
+    t = look(t)
+    if is_call(t, "map_or"):
+        src, dflt, clo = look(t[2][0]), look(t[2][1]), look(t[2][2])
+        if is_call(src, "as_ref"):
+            src = look(src[2][0])
+        return _kill_switch_field(src) and const_of(dflt) == -1 and clo[0] == "closure"
+    if lf is None:
         return False
-    src, dflt, clo = look(t[2][0]), look(t[2][1]), look(t[2][2])
-    if is_call(src, "as_ref"):
-        src = look(src[2][0])
-    ok = src[0] == "field" and src[3] == "kill_switch" and src[2] == srv.SRV and const_of(dflt) == -1 and clo[0] == "closure"
-    return ok
+    some = None
+    for (c_t, c, _b) in lf.conds:
+        if c_t[0] == "discr" and _kill_switch_field(c_t[1]) and option_is_some(c) is not None:
+            some = option_is_some(c)
+    if const_of(t) == -1:
+        return some is False
+    if is_call(t, "as_raw_fd") and t[2]:
+        src = payload_of(t[2][0])
+        return some is True and src is not None and _kill_switch_field(src)
+    return False
 
 
 def no_read(ctx):
@@ -152,7 +175,11 @@ def no_read(ctx):
             for pl in rv_places(rv):
                 if any(e["k"] == "field" and e["name"] == "kill_switch" and e.get("of") == srv.SRV for e in pl["proj"]):
                     readers.add(f.name)
-    ctx.ob("R18.5", "kill_switch|readers", readers <= {srv.REQUESTS}, "the kill_switch field is read in %s" % sorted(readers))
+    from .util import roots_of
+    roots = set()
+    for r in readers:
+        roots |= roots_of(facts, r) or {r}
+    ctx.ob("R18.5", "kill_switch|readers", roots <= {srv.REQUESTS}, "the kill_switch field is read in %s (on behalf of %s)" % (sorted(readers), sorted(roots)))
 
 
 def rv_places(rv):
